@@ -158,7 +158,17 @@ SerdeRel(op, a, r) ==
 \* Integer projections of floating-point results (computed by the recorder in f64 from the native values).
 \* The model knows the exact rational inputs, so it knows which side of each threshold they are on.
 IsIntTup(x, n) == x.t = "Tup" /\ Len(x.c) = n
-ProjOps == {"slerp_proj", "nlerp_proj", "slerp_axis_proj", "look_proj", "arc_proj", "small_rot_proj", "norm_proj", "trig_big_proj", "tiny_inv_proj", "slab_proj", "scale_proj", "cross_near_proj", "mm_col_proj", "look_mag_proj", "deep_proj", "angle_near_proj", "lerp_end_proj", "dec_concat_proj", "fov_proj", "unit_roundtrip", "normalize_native", "turn_div_exact", "full_turn_value", "euler_proj"}
+ProjOps == {"slerp_proj", "nlerp_proj", "slerp_axis_proj", "look_proj", "arc_proj", "small_rot_proj", "norm_proj", "trig_big_proj", "tiny_inv_proj", "slab_proj", "scale_proj", "cross_near_proj", "mm_col_proj", "look_mag_proj", "deep_proj", "angle_near_proj", "lerp_end_proj", "dec_concat_proj", "fov_proj", "hom_proj", "unit_roundtrip", "normalize_native", "turn_div_exact", "full_turn_value", "euler_proj"}
+\* degree of homogeneity of the operations when every vector / point / matrix / quaternion argument is multiplied by k
+\* (scalar arguments are not scaled): linear operations 1, products and quadratic forms 2, determinants n, inverses -1,
+\* directions and angles 0
+HomDegrees == {<<"add", 1>>, <<"sub", 1>>, <<"neg", 1>>, <<"mul_s", 1>>, <<"div_s", 1>>, <<"s_mul", 1>>, <<"mul", 2>>, <<"dot", 2>>, <<"cross", 2>>,
+               <<"perp_dot", 2>>, <<"mag2", 2>>, <<"magnitude", 1>>, <<"distance2", 2>>, <<"distance", 1>>, <<"normalize", 0>>, <<"lerp", 1>>,
+               <<"transpose", 1>>, <<"transpose_self", 1>>, <<"trace", 1>>, <<"diagonal", 1>>, <<"det", 2>>, <<"det", 3>>, <<"det", 4>>, <<"invert", -1>>, <<"rot_invert", -1>>,
+               <<"mul_ew", 2>>, <<"add_ew", 1>>, <<"sub_ew", 1>>, <<"sum", 1>>, <<"midpoint", 1>>, <<"centroid", 1>>, <<"to_vec", 1>>, <<"from_vec", 1>>,
+               <<"conjugate", 1>>, <<"iter_sum", 1>>, <<"project_on", 1>>, <<"angle", 0>>, <<"is_zero", 0>>, <<"row", 1>>, <<"col", 1>>,
+               <<"truncate", 1>>, <<"from_diagonal", 1>>, <<"swap_rows", 1>>, <<"swap_cols", 1>>, <<"to_homogeneous", 1>>,
+               <<"from_homogeneous", 0>>, <<"nlerp", 0>>}
 ProjRel(op, k, a, r) ==
   LET wide == k = "f32" IN
   CASE op \in {"slerp_proj", "nlerp_proj"} ->
@@ -261,6 +271,11 @@ ProjRel(op, k, a, r) ==
                                /\ r.c[1].c[1] <= 16 /\ r.c[2].c[1] <= 16 /\ r.c[3].c[1] <= 16
     \* column c of A*B = A*(column c of B) on awkward operands, every operand form                              (C01)
     [] op = "mm_col_proj" -> IsIntTup(r, 2) /\ r.c[1].c[1] <= 16 /\ r.c[2].c[1] = TRUE
+    \* Homogeneity of an arbitrary operation of the machine: a = <<T op, T form, I table index, I degree, arguments..>>.
+    \* The model states the degree: the table below is the specification's claim about each operation.
+    [] op = "hom_proj" ->
+         /\ IsIntTup(r, 2) /\ <<Sc(a, 1), Sc(a, 4)>> \in HomDegrees
+         /\ r.c[1].c[1] <= 64 /\ r.c[2].c[1] = TRUE
     \* cross(u, u + g w) = g cross(u, w): nearly parallel operands lose nothing beyond eps |u| |v|              (C03)
     [] op = "cross_near_proj" -> IsIntTup(r, 2) /\ r.c[1].c[1] <= 64 /\ r.c[2].c[1] = TRUE
     [] op = "unit_roundtrip" -> r.t = "I" /\ r.c[1] <= 4       \* relative error at most 4 machine epsilons   (C13)
